@@ -490,6 +490,60 @@ func harnesses(r *fw.Run) []fw.HarnessSpec {
 		inbound(c, []*cell.Cell{root}, o, "masks")
 	})
 
+	// one bag that holds a subtree and a partially pruned copy of it (what a Merkle proof next to its source looks like):
+	// the copy has the same level-0 hash as the original but is a different cell, and both must survive the round trip
+	add("subtree-next-to-its-pruned-copy", 0, func(c *enum.Ctx) {
+		l1 := cell.MustNew([]byte{0xA1}, 8, nil, false)
+		l2 := cell.MustNew(bits.Pattern(seed, 77).Bytes(), 77, nil, false)
+		inner := cell.MustNew([]byte{0x5C}, 8, []*cell.Cell{l1, l2}, false)
+		a := cell.MustNew([]byte{0x11, 0x80}, 9, []*cell.Cell{inner, l1}, false)
+		// copies of a with one subtree replaced by a pruned branch
+		which := c.ChooseFree(3)
+		target := []*cell.Cell{inner, l2, l1}[which]
+		pr, err := cell.NewPruned(target, 1)
+		if err != nil {
+			c.Skip()
+			return
+		}
+		var inner2, a2 *cell.Cell
+		switch which {
+		case 0:
+			a2, err = cell.New(a.Data, a.BitLen, []*cell.Cell{pr, l1}, false)
+		case 1:
+			inner2, err = cell.New(inner.Data, inner.BitLen, []*cell.Cell{l1, pr}, false)
+			if err == nil {
+				a2, err = cell.New(a.Data, a.BitLen, []*cell.Cell{inner2, l1}, false)
+			}
+		case 2:
+			a2, err = cell.New(a.Data, a.BitLen, []*cell.Cell{inner, pr}, false)
+		}
+		if err != nil {
+			c.Skip()
+			return
+		}
+		proof, err := cell.NewMerkleProof(a2)
+		if err != nil {
+			c.Skip()
+			return
+		}
+		var refs []*cell.Cell
+		if c.ChooseFree(2) == 0 {
+			refs = []*cell.Cell{proof, a}
+		} else {
+			refs = []*cell.Cell{a, proof}
+		}
+		root, err := cell.New([]byte{0x77}, 8, refs, false)
+		if err != nil {
+			c.Skip()
+			return
+		}
+		oi := c.ChooseFree(8)
+		h := root.ReprHash()
+		c.Case([]byte(fmt.Sprintf("pruned-copy/%d/%x/%d", which, h[:4], oi)), true)
+		c.Label("pruned copy variant %d, options %03b, %d distinct cells", which, oi, root.DistinctHashes())
+		dagRoundTrip(c, root, oi, "pruned-copy")
+	})
+
 	// real data
 	add("real-data", 0, func(c *enum.Ctx) {
 		its := realdata.BOCs()
